@@ -143,10 +143,10 @@ func (c *Ctx) asLoc(v Val, ptrType types.Type, st *State) *Loc {
 	}
 	if at, isArr := elem.Underlying().(*types.Array); isArr {
 		es := c.sorts.Of(at.Elem())
-		return &Loc{Kind: LHeap, Array: c.sorts.ElemArray(es), ASort: es, Ref: ref, Root: elem, Type: elem}
+		return &Loc{Kind: LHeap, Array: c.sorts.ElemArrayT(at.Elem()), ASort: es, Ref: ref, Root: elem, Type: elem}
 	}
 	cs := c.sorts.Of(elem)
-	return &Loc{Kind: LHeap, Array: c.sorts.CellArray(cs), ASort: cs, Ref: ref, Root: elem, Type: elem}
+	return &Loc{Kind: LHeap, Array: c.sorts.CellArrayT(elem), ASort: cs, Ref: ref, Root: elem, Type: elem}
 }
 
 // rootRead reads the content at the root of a location.
@@ -298,6 +298,9 @@ func (c *Ctx) execInstr(fr *Frame, ins ssa.Instruction, st *State, reach string)
 		ref := c.newRef(st, reach, x.Name(), x.Type())
 		v := Val{T: ref, Typ: x.Type()}
 		fr.vals[x] = v
+		if _, isStruct := elem.Underlying().(*types.Struct); isStruct && fr == c.topFrame {
+			fr.allocs = append(fr.allocs, allocRec{ref: ref, t: elem, reach: reach})
+		}
 		// zero-initialise (final fields that the initialisation stores explicitly are left to that store)
 		l := c.asLoc(v, x.Type(), st)
 		c.skipZeroInit = nil
@@ -339,7 +342,7 @@ func (c *Ctx) execInstr(fr *Frame, ins ssa.Instruction, st *State, reach string)
 			c.oblige("SAFE", "SAFE.index", x.Pos(), reach, g, "slice index in range")
 			c.assume(reach, g)
 			es := c.sorts.Of(bt.Elem())
-			fr.vals[x] = Val{L: &Loc{Kind: LElem, Array: c.sorts.ElemArray(es), ASort: es, Ref: "(s_arr " + s + ")",
+			fr.vals[x] = Val{L: &Loc{Kind: LElem, Array: c.sorts.ElemArrayT(bt.Elem()), ASort: es, Ref: "(s_arr " + s + ")",
 				Idx: c.define("ix", "Int", "(+ (s_off "+s+") "+idx+")"), Root: bt.Elem(), Type: bt.Elem()}, Typ: x.Type()}
 		case *types.Pointer:
 			at := bt.Elem().Underlying().(*types.Array)
@@ -350,7 +353,7 @@ func (c *Ctx) execInstr(fr *Frame, ins ssa.Instruction, st *State, reach string)
 			if bl.Kind == LHeap && len(bl.Path) == 0 && bl.Array != "" {
 				c.derefSafe(bl, x.Pos(), reach, "array pointer")
 				es := c.sorts.Of(at.Elem())
-				fr.vals[x] = Val{L: &Loc{Kind: LElem, Array: c.sorts.ElemArray(es), ASort: es, Ref: bl.Ref, Idx: idx,
+				fr.vals[x] = Val{L: &Loc{Kind: LElem, Array: c.sorts.ElemArrayT(at.Elem()), ASort: es, Ref: bl.Ref, Idx: idx,
 					Root: at.Elem(), Type: at.Elem()}, Typ: x.Type()}
 			} else {
 				nl := *bl
@@ -370,6 +373,9 @@ func (c *Ctx) execInstr(fr *Frame, ins ssa.Instruction, st *State, reach string)
 			c.derefSafe(l, x.Pos(), reach, "store")
 		}
 		c.frameCheck(fr, l, st, reach, x.Pos())
+		if l.Kind == LElem && len(l.Path) == 0 {
+			c.wfStore(reach, x.Pos(), c.term(val), x.Val.Type(), st, "store into a slice element")
+		}
 		c.store(l, st, c.term(val))
 	case *ssa.UnOp:
 		c.execUnOp(fr, x, st, reach)
@@ -438,19 +444,18 @@ func (c *Ctx) execInstr(fr *Frame, ins ssa.Instruction, st *State, reach string)
 		ref := c.newRef(st, reach, "mk", nil)
 		et := x.Type().Underlying().(*types.Slice).Elem()
 		es := c.sorts.Of(et)
-		a := c.arr(st, c.sorts.ElemArray(es), es)
-		c.setArr(st, c.sorts.ElemArray(es), es, fmt.Sprintf("(store %s %s ((as const (Array Int %s)) %s))", a, ref, es, c.sorts.Zero(et)))
+		a := c.arr(st, c.sorts.ElemArrayT(et), es)
+		c.setArr(st, c.sorts.ElemArrayT(et), es, fmt.Sprintf("(store %s %s %s)", a, ref, c.constArray(es, c.sorts.Zero(et))))
 		fr.vals[x] = Val{T: c.define(x.Name(), "Slice", fmt.Sprintf("(mk_slice %s 0 %s %s)", ref, ln, cp)), Typ: x.Type()}
 	case *ssa.MakeMap:
 		ref := c.newRef(st, reach, x.Name(), nil)
 		mt := x.Type().Underlying().(*types.Map)
-		ks, vs := c.sorts.Of(mt.Key()), c.sorts.Of(mt.Elem())
-		hn := c.sorts.MapHas(ks, vs)
-		hs := fmt.Sprintf("(Array Int (Array %s Bool))", ks)
+		hn, hs, _, _, ks, _ := c.mapArrays(mt, st)
 		h := c.arr(st, hn, hs)
 		c.setArr(st, hn, hs, fmt.Sprintf("(store %s %s ((as const (Array %s Bool)) false))", h, ref, ks))
-		ml := c.arr(st, MapLen, "Int")
-		c.setArr(st, MapLen, "Int", fmt.Sprintf("(store %s %s 0)", ml, ref))
+		mln := c.sorts.MapLenT(mt)
+		ml := c.arr(st, mln, "Int")
+		c.setArr(st, mln, "Int", fmt.Sprintf("(store %s %s 0)", ml, ref))
 		fr.vals[x] = Val{T: ref, Typ: x.Type()}
 	case *ssa.MapUpdate:
 		c.execMapUpdate(fr, x, st, reach)
@@ -525,6 +530,10 @@ func (c *Ctx) execUnOp(fr *Frame, x *ssa.UnOp, st *State, reach string) {
 		fr.vals[x] = res
 		if l.Kind != LLocal {
 			c.assumeTyped(reach, res, x.Type(), st, 1)
+			c.assumeInv(reach, t, x.Type(), st)
+			if l.Kind == LElem && len(l.Path) == 0 {
+				c.wfRead(reach, t, x.Type(), st)
+			}
 		}
 	case token.NOT:
 		fr.vals[x] = Val{T: not(c.term(v)), Typ: x.Type()}
@@ -746,7 +755,7 @@ func (c *Ctx) execConvert(fr *Frame, x *ssa.Convert, st *State, reach string) {
 			if b, ok := ts.Elem().Underlying().(*types.Basic); ok && b.Kind() == types.Int32 {
 				ln = "(runecount " + c.term(v) + ")"
 			}
-			c.arr(st, c.sorts.ElemArray("Int"), "Int")
+			c.arr(st, c.sorts.ElemArrayT(ts.Elem()), c.sorts.Of(ts.Elem()))
 			fr.vals[x] = Val{T: c.define(name, "Slice", fmt.Sprintf("(mk_slice %s 0 %s %s)", ref, ln, ln)), Typ: to}
 			return
 		}
@@ -886,9 +895,9 @@ func (c *Ctx) execSlice(fr *Frame, x *ssa.Slice, st *State, reach string) {
 
 func (c *Ctx) mapArrays(mt *types.Map, st *State) (hn, hs, vn, vs, ks, es string) {
 	ks, es = c.sorts.Of(mt.Key()), c.sorts.Of(mt.Elem())
-	hn = c.sorts.MapHas(ks, es)
+	hn = c.sorts.MapHasT(mt)
 	hs = fmt.Sprintf("(Array Int (Array %s Bool))", ks)
-	vn = c.sorts.MapVal(ks, es)
+	vn = c.sorts.MapValT(mt)
 	vs = fmt.Sprintf("(Array Int (Array %s %s))", ks, es)
 	return
 }
@@ -900,15 +909,19 @@ func (c *Ctx) execMapUpdate(fr *Frame, x *ssa.MapUpdate, st *State, reach string
 	g := c.nonNil(m)
 	c.oblige("SAFE", "SAFE.nilmap", x.Pos(), reach, g, "assignment to entry in nil map")
 	c.assume(reach, g)
-	c.frameCheckRef(fr, m, "map", st, reach, x.Pos())
-	c.lockCheck(fr, x.Map, st, reach, x.Pos(), true)
 	mt := x.Map.Type().Underlying().(*types.Map)
+	if !c.ecExempt(c.sorts.MapValT(mt)) {
+		c.frameCheckRef(fr, m, "map", st, reach, x.Pos())
+	}
+	c.lockCheck(fr, x.Map, st, reach, x.Pos(), true)
+	c.wfStore(reach, x.Pos(), v, mt.Elem(), st, "map entry")
 	hn, hs, vn, vs, _, _ := c.mapArrays(mt, st)
 	h := c.arr(st, hn, hs)
 	va := c.arr(st, vn, vs)
-	ml := c.arr(st, MapLen, "Int")
+	mln := c.sorts.MapLenT(mt)
+	ml := c.arr(st, mln, "Int")
 	had := fmt.Sprintf("(select (select %s %s) %s)", h, m, k)
-	c.setArr(st, MapLen, "Int", fmt.Sprintf("(store %s %s (ite %s (select %s %s) (+ (select %s %s) 1)))", ml, m, had, ml, m, ml, m))
+	c.setArr(st, mln, "Int", fmt.Sprintf("(store %s %s (ite %s (select %s %s) (+ (select %s %s) 1)))", ml, m, had, ml, m, ml, m))
 	c.setArr(st, hn, hs, fmt.Sprintf("(store %s %s (store (select %s %s) %s true))", h, m, h, m, k))
 	c.setArr(st, vn, vs, fmt.Sprintf("(store %s %s (store (select %s %s) %s %s))", va, m, va, m, k, v))
 }
@@ -938,6 +951,7 @@ func (c *Ctx) execLookup(fr *Frame, x *ssa.Lookup, st *State, reach string) {
 	val := c.define(x.Name()+"_v", c.sorts.Of(mt.Elem()), ite(has, fmt.Sprintf("(select (select %s %s) %s)", va, mm, k), c.sorts.Zero(mt.Elem())))
 	vv := Val{T: val, Typ: mt.Elem()}
 	c.assume(reach, implies(has, c.typeFact(val, mt.Elem(), st, 1)))
+	c.wfRead(and(reach, has), val, mt.Elem(), st)
 	if x.CommaOk {
 		fr.vals[x] = Val{Tup: []Val{vv, {T: has, Typ: types.Typ[types.Bool]}}, Typ: x.Type()}
 	} else {
